@@ -236,6 +236,37 @@ def tested_some(ctx, bb, l):
     return False
 
 
+def check_requirement(prog, rq):
+    """Machine-checked precondition attached to a reviewed table line.  Returns None when it holds, else why not.
+    kind arg-unaltered: in function `fn`, the argument `arg` of the call whose callee ends with `callee_suffix` is the
+    parameter `param` passed through copies / conversions only (callees ending in one of `allowed`): the value that was
+    classified by the caller's guard is the value used, not a filtered or edited one."""
+    from flow import Flow
+    if rq.get("kind") != "arg-unaltered":
+        return "unknown requirement kind %r" % rq.get("kind")
+    f = prog.fn(rq["fn"])
+    if f is None:
+        return "function %s not found" % rq["fn"]
+    sites = [(bb, t) for bb, t in f.calls() if (callee_of(t) or "").endswith(rq["callee_suffix"])]
+    if not sites:
+        return "%s no longer calls %s" % (rq["fn"], rq["callee_suffix"])
+    fl = Flow(f)
+    for bb, t in sites:
+        l = op_local(t["args"][rq["arg"]])
+        if l is None:
+            return "argument %d of %s is not a local" % (rq["arg"], rq["callee_suffix"])
+        src = fl.back_pure([l])
+        if rq["param"] not in src:
+            return "argument of %s does not derive from parameter %d of %s" % (rq["callee_suffix"], rq["param"], rq["fn"])
+        for x in src:
+            for _, tt in fl.call_defs.get(x, []):
+                c = callee_of(tt) or tt.get("callee") or "?"
+                if not any(c.endswith(a) for a in rq["allowed"]):
+                    return "%s passes parameter %d through %s before %s: the value checked by the caller's guard is not the value used" % (
+                        rq["fn"], rq["param"], c, rq["callee_suffix"])
+    return None
+
+
 def run(tier="quick", replay=None):
     R = Report(PID, tier,
                "Inventory (from MIR, reachable from the front-end entry points through the CHA call graph) of "
@@ -285,8 +316,15 @@ def run(tier="quick", replay=None):
             if ent["class"] == "known-finding":
                 R.viol("R14.a", key, site, msg, fn=f.path)
             else:
-                dis["table:" + ent["class"]] += 1
-                R.ob("R14.a", key, site, "table: %s — %s" % (ent["class"], ent["reason"]), fn=f.path)
+                broken = [why for why in (check_requirement(prog, rq) for rq in ent.get("requires", [])) if why]
+                if broken:
+                    R.viol("R14.a", key, site, msg + " — the reviewed table line (%s) rests on a precondition that no longer holds: %s" % (
+                        ent["reason"], "; ".join(broken)), fn=f.path)
+                else:
+                    dis["table:" + ent["class"]] += 1
+                    R.ob("R14.a", key, site, "table: %s — %s%s" % (ent["class"], ent["reason"],
+                                                                   " [machine-checked precondition(s): %d]" % len(ent["requires"]) if ent.get("requires") else ""),
+                         fn=f.path)
         else:
             R.viol("R14.a", key, site, msg, fn=f.path)
 
